@@ -9,7 +9,7 @@ from pathlib import Path
 from .. import _expression
 from .. import _port_id_ranges
 from .._bit_length_set import BitLengthSet
-from .._error import InvalidDefinitionError
+from .._error import InvalidDefinitionError, format_integer
 from ._serializable import SerializableType, TypeParameterError, AggregationFailure
 from ._attribute import Attribute, Field, PaddingField, Constant
 from ._name import check_name, InvalidNameError
@@ -575,14 +575,15 @@ class DelimitedType(CompositeType):
         self._extent = int(extent)
         if self._extent % self.alignment_requirement != 0:
             raise InvalidExtentError(
-                "The specified extent of %d bits is not a multiple of %d bits"
-                % (self._extent, self.alignment_requirement)
+                "The specified extent of %s bits is not a multiple of %d bits"
+                % (format_integer(self._extent), self.alignment_requirement)
             )
         if self._extent < inner.extent:
             raise InvalidExtentError(
-                "The specified extent of %d bits is too small for this data type. "
-                "Either compactify the data type or increase the extent at least to %d bits. "
-                "Beware that the latter option may break wire compatibility." % (self._extent, inner.extent)
+                "The specified extent of %s bits is too small for this data type. "
+                "Either compactify the data type or increase the extent at least to %s bits. "
+                "Beware that the latter option may break wire compatibility."
+                % (format_integer(self._extent), format_integer(inner.extent))
             )
 
         delimiter_header_bit_length = self._DEFAULT_DELIMITER_HEADER_BIT_LENGTH  # This may be made configurable later.
@@ -661,7 +662,11 @@ class DelimitedType(CompositeType):
 
     def __repr__(self) -> str:
         try:
-            return "%s(inner=%r, extent=%r)" % (self.__class__.__name__, self.inner_type, self.extent)
+            return "%s(inner=%r, extent=%s)" % (
+                self.__class__.__name__,
+                self.inner_type,
+                format_integer(self.extent),
+            )
         except AttributeError:  # pragma: no cover
             return "%s(UNINITIALIZED)" % self.__class__.__name__
 
